@@ -33,12 +33,13 @@ def simp(e):
 
 
 class Ptr:
-    __slots__ = ('obj', 'off', 'cands')
+    __slots__ = ('obj', 'off', 'cands', 'need')
 
-    def __init__(self, obj, off, cands=None):
+    def __init__(self, obj, off, cands=None, need=None):
         self.obj = obj
         self.off = off
         self.cands = cands  # list of concrete candidate offsets when off is symbolic
+        self.need = need    # condition under which the pointer may be dereferenced (array index strictly in range)
 
     def __repr__(self):
         return 'Ptr(%s,%s)' % (self.obj.name if self.obj else 'ext', self.off)
@@ -244,6 +245,7 @@ class Engine:
         self.fresh_ctr = itertools.count()
         self.solver = z3.Solver()
         self.solver.set('timeout', self.opt['feas_timeout_ms'])
+        self.solver.set('rlimit', 3000000)      # resource bound as well: the time-out alone is not honoured by every tactic
         self.covers = []
         self.stats = dict(feas_checks=0, inlined=0, contract_calls=0)
         self._class_sizes = None
@@ -287,8 +289,8 @@ class Engine:
                 return p
             kk = BV(k, self.pbits)
             cands = [c + k for c in p.cands] if p.cands is not None else None
-            return Ptr(p.obj, simp(p.off + kk), cands)
-        return Ptr(p.obj, simp(p.off + k), None)
+            return Ptr(p.obj, simp(p.off + kk), cands, p.need)
+        return Ptr(p.obj, simp(p.off + k), None, p.need)
 
     def ptr_to_bv(self, p):
         if isinstance(p, FnPtr):
@@ -566,6 +568,10 @@ class Engine:
         raise OutOfReach('load of type %r' % (ty,))
 
     def _bounds_ob(self, st, ptr, n, ins):
+        if isinstance(ptr, Ptr) and ptr.need is not None and st is not None:
+            self.ob(st, 'index', ins, ptr.need, info={'what': 'array element dereferenced'})
+            st.pc.append(simp(ptr.need))
+            ptr.need = None
         if isinstance(ptr, FnPtr) or ptr.obj is None or ptr.obj.kind == 'extglobal':
             return
         off = simp(ptr.off)
@@ -587,6 +593,7 @@ class Engine:
         if isinstance(ptr, FnPtr):
             raise OutOfReach('store through function pointer')
         if ptr.obj is None or ptr.obj.kind == 'extglobal':
+            self._bounds_ob(st, ptr, n, ins)
             addr = self.ptr_to_bv(ptr)
             base, off = self._addr_key(addr)
             for key in list(st.typed):
@@ -653,6 +660,15 @@ class Engine:
         raise OutOfReach('store of type %r' % (ty,))
 
     def havoc(self, st, ptr, n, tag='havoc'):
+        if (ptr.obj is None or ptr.obj.kind == 'extglobal') and n > 32:
+            # large region: one fresh array for the whole range instead of n nested stores;
+            # membership "a - base <u n" is decided syntactically for addresses that share the symbolic base
+            st.typed.clear()
+            base = self.ptr_to_bv(ptr)
+            fresh_arr = z3.Array('%s!%d' % (tag, next(self.fresh_ctr)), z3.BitVecSort(self.pbits), z3.BitVecSort(8))
+            a = z3.BitVec('hv_a', self.pbits)
+            st.mem = z3.Lambda([a], z3.If(z3.ULT(a - base, BV(n, self.pbits)), z3.Select(fresh_arr, a), z3.Select(st.mem, a)))
+            return
         bs = [self.fresh(tag, 8) for _ in range(n)]
         if ptr.obj is None or ptr.obj.kind == 'extglobal':
             st.typed.clear()
@@ -761,10 +777,14 @@ class Engine:
         # symbolic index
         w = iv.size()
         ext = z3.SignExt(self.pbits - w, iv) if w < self.pbits else (iv if w == self.pbits else z3.Extract(self.pbits - 1, 0, iv))
+        need = p.need
         if count is not None and count > 0 and st is not None:
-            goal = z3.ULT(iv, BV(count, w))
-            self.ob(st, 'index', ins, goal, info={'what': 'index into array of %d' % count})
+            # forming the address needs index <= N (one past the end is legal); dereferencing it needs index < N
+            goal = z3.ULE(iv, BV(count, w))
+            self.ob(st, 'index', ins, goal, info={'what': 'index into array of %d (address)' % count})
             st.pc.append(goal)
+            strict = z3.ULT(iv, BV(count, w))
+            need = strict if need is None else z3.And(need, strict)
         off = simp(p.off + ext * BV(es, self.pbits))
         cands = None
         if p.obj is not None and p.obj.kind != 'extglobal':
@@ -773,7 +793,7 @@ class Engine:
                 n = count if (count is not None and count > 0) else max((p.obj.size // es) if es else 0, 1)
                 if len(base_c) * n <= 1024:
                     cands = sorted({c + i * es for c in base_c for i in range(n)})
-        return Ptr(p.obj, off, cands)
+        return Ptr(p.obj, off, cands, need)
 
     # ---- obligations ----------------------------------------------------------------
     def ob(self, st, kind, ins, goal, info=None, name=None):
